@@ -832,7 +832,29 @@ func twinSession(t *testing.T, run *ev.Run, si, n int, concurrent bool) *violati
 func (w *world) commonTx(r *rng.R, avoid int) *transaction.Transaction {
 	p := w.A
 	for {
-		switch r.Intn(4) {
+		switch r.Intn(6) {
+		case 4, 5:
+			// a halting plan that calls under try, with and without the callee
+			// throwing: its result depends on nothing the previous transaction of
+			// the block may have left in the reused VM
+			s := -1
+			for _, i := range r.Perm(nBase) {
+				if p.BC.GetContractState(w.slotHash[i]) != nil && !w.isBlocked(w.slotHash[i]) {
+					s = i
+				}
+			}
+			if s < 0 {
+				continue
+			}
+			v := fmt.Sprint(r.Intn(1000))
+			plan := []step{{Op: opPut, K: "t0", V: v}, {Op: opTryCall, C: s, F: fAll, Sub: []step{{Op: opPut, K: "t1", V: v}, {Op: opNotify, N: 6000 + r.Intn(100)}}},
+				{Op: opTryCall, C: s, F: fAll, Sub: []step{{Op: opPut, K: "t2", V: v}, {Op: opNotify, N: 6100}, {Op: opThrow}}},
+				{Op: opLocalTry, Sub: []step{{Op: opCall, C: s, F: fAll, Sub: []step{{Op: opPut, K: "t3", V: v}}}, {Op: opNotify, N: 6200}}}, {Op: opNotify, N: 6300}}
+			bw := io.NewBufBinWriter()
+			call := io.NewBufBinWriter()
+			appCall(call.BinWriter, w.slotHash[s], "run", w.encode(s, plan))
+			bw.BinWriter.WriteBytes(wrapCall([]int{wPlain, wTryCatch, wTryFinallyOnly}[r.Intn(3)], call.Bytes()))
+			return p.Tx("side-try-plan", []neotest.Signer{p.Users[3].S}, bw.Bytes(), 10_0000_0000)
 		case 0:
 			return w.smallTransfer(3, 4, int64(1+r.Intn(100)))
 		case 1:
